@@ -193,8 +193,12 @@ pub fn get_solidity_version_from_source_unit(source_unit: SourceUnit) -> Option<
             let minor_major_patch_version =
                 get_solidity_major_minor_patch_version(&solidity_version_literal.string)
                     .iter()
-                    .map(|f| f.parse::<i32>().unwrap())
-                    .collect::<Vec<i32>>();
+                    .map(|f| f.parse::<i32>().ok())
+                    .collect::<Option<Vec<i32>>>()?;
+
+            if minor_major_patch_version.len() != 3 {
+                return None;
+            }
 
             return Some((
                 minor_major_patch_version[0],
